@@ -47,13 +47,16 @@ def _decoder_functions(repo):
     mod = repo.module("decoder")
     out = []
     from .inline import inlined
+    log = []
     for name, fn in mod.functions.items():
-        out.append((None, name, inlined(repo, None, fn, module="decoder")))
+        out.append((None, name, inlined(repo, None, fn, module="decoder", log=log)))
     for cname, cnode in mod.classes.items():
         for n in cnode.body:
             if isinstance(n, ast.FunctionDef):
-                out.append((cname, n.name, inlined(repo, cname, n, module="decoder")))
-    return out
+                out.append((cname, n.name, inlined(repo, cname, n, module="decoder", log=log)))
+    # a private thin helper that was read in place at its call sites is judged there, not on its own
+    # (its parameters stand for the caller's groups)
+    return [(o, n, f) for (o, n, f) in out if not (n.startswith("_") and n in log)]
 
 
 def _match_patterns(repo, fn):
@@ -187,8 +190,28 @@ def rule_n2(repo, res):
             for x in ast.walk(fn):
                 if isinstance(x, ast.Assign) and isinstance(x.targets[0], ast.Name):
                     defs.setdefault(x.targets[0].id, []).append(x.value)
+                # a, b = <x>, <y>
+                if isinstance(x, ast.Assign) and isinstance(x.targets[0], ast.Tuple) and isinstance(x.value, ast.Tuple) \
+                        and len(x.targets[0].elts) == len(x.value.elts):
+                    for t_, v_ in zip(x.targets[0].elts, x.value.elts):
+                        if isinstance(t_, ast.Name):
+                            defs.setdefault(t_.id, []).append(v_)
 
-            def leaves(e):
+            def group_name(e):
+                """constant group name of <groups>[name] / <groups>.get(name, default), else None"""
+                if isinstance(e, ast.Subscript) and isinstance(e.slice, ast.Constant):
+                    return str(e.slice.value)
+                if isinstance(e, ast.Call) and isinstance(e.func, ast.Attribute) and e.func.attr == "get" and e.args \
+                        and isinstance(e.args[0], ast.Constant):
+                    return str(e.args[0].value)
+                return None
+
+            def leaves(e, depth=0):
+                if isinstance(e, ast.Name) and e.id in defs and depth < 4:
+                    out = []
+                    for d_ in defs[e.id]:
+                        out += leaves(d_, depth + 1)
+                    return out
                 if isinstance(e, ast.IfExp):
                     return leaves(e.body) + leaves(e.orelse)
                 if isinstance(e, ast.BoolOp):
@@ -209,8 +232,7 @@ def rule_n2(repo, res):
                         srcs += leaves(d)
                 else:
                     srcs = leaves(ptn)
-                good = bool(srcs) and all(isinstance(s_, ast.Subscript) and isinstance(s_.slice, ast.Constant)
-                                          and (want in str(s_.slice.value)) for s_ in srcs)
+                good = bool(srcs) and all(group_name(s_) is not None and (want in group_name(s_)) for s_ in srcs)
                 if want == "sign":
                     ok_sign = good
                     if not good:
